@@ -291,8 +291,12 @@ def _resize(rng, raw, n, gen):
     inner = raw
     if raw['t'] in ('setup', 'dict'):
         inner = raw['value']
-    if inner is None or inner['t'] != 'list':
+    if inner is None:
         return raw
+    if inner['t'] != 'list':
+        one = dict(inner)
+        inner.clear()
+        inner.update({'t': 'list', 'v': [one]})
     v = list(inner['v'])[:n]
     while len(v) < n:
         v.append(gen())
